@@ -1,4 +1,6 @@
 //@@ unit SENDSPLIT
+//@@ gsubst `oneshot::Sender<Option<DeliveryState>>` => `OneshotSender` rule=R9
+//@@ gsubst `oneshot::Receiver<Option<DeliveryState>>` => `OneshotReceiver` rule=R9
 //@@ gsubst `definitions::Error` => `AmqpError` rule=R11
 #![feature(allocator_api)]
 #![allow(unused_imports, unused_variables, dead_code, unused_mut, unused_parens)]
@@ -77,12 +79,41 @@ impl<T> OnceLock<T> {
     { unimplemented!() }
 }
 
-// SenderLink<T>: the fields the splitter reads (R11: other fields elided)
+// SenderLink<T>: the fields the splitter / send_payload_with_transfer read (R11: other fields elided)
 pub struct SenderLink {
     pub snd_settle_mode: SenderSettleMode,
     pub input_handle: Option<InputHandle>,
     pub max_message_size: u64,
     pub session_stop_reason: OnceLock<SessionStopReason>,
+    pub unsettled: Option<OrderedMap<DeliveryTag, UnsettledMessage>>,
+}
+
+// tokio oneshot channel: the two ends of ONE completion channel share a ghost id
+pub struct OneshotSender { pub id: Ghost<int> }
+pub struct OneshotReceiver { pub id: Ghost<int> }
+#[verifier::external_body]
+pub fn oneshot_channel() -> (r: (OneshotSender, OneshotReceiver)) ensures r.0.id@ == r.1.id@ { unimplemented!() }
+
+#[verifier::external_body]
+#[verifier::reject_recursive_types(K)]
+#[verifier::reject_recursive_types(V)]
+pub struct OrderedMap<K, V> { m: Vec<(K, V)> }
+impl<K, V> View for OrderedMap<K, V> { type V = Map<K, V>; uninterp spec fn view(&self) -> Map<K, V>; }
+pub open spec fn omap<K, V>(g: Option<OrderedMap<K, V>>) -> Map<K, V> { match g { Some(m) => m@, None => Map::empty() } }
+#[verifier::external_body]
+pub fn opt_insert<K, V>(g: &mut Option<OrderedMap<K, V>>, k: K, v: V) -> (r: Option<V>)
+    ensures omap(*final(g)) == omap(*old(g)).insert(k, v), *final(g) is Some,
+{ unimplemented!() }
+
+//@@ type file=fe2o3-amqp/src/link/delivery.rs kind=struct name=UnsettledMessage
+//@@ end
+//@@ type file=fe2o3-amqp/src/endpoint/mod.rs kind=enum name=Settlement
+//@@ end
+impl UnsettledMessage {
+//@@ fn file=fe2o3-amqp/src/link/delivery.rs impl=`impl UnsettledMessage` name=new
+//@@ spec
+    ensures r.payload == payload, r.state == state, r.message_format == message_format, r.sender == sender,
+//@@ end
 }
 
 // ---- specification ---------------------------------------------------------------------------
@@ -227,6 +258,30 @@ impl SenderLink {
             frames_of(writer.sent@.skip(w0.len() as int)) + link_mids(cleared(t0), payload@, maxg)
                 =~= seq![(Transfer { more: true, ..t0 }, p0.take(maxg))] + link_mids(cleared(t0), p0.skip(maxg), maxg),
         decreases payload@.len(),
+//@@ end
+}
+
+impl SenderLink {
+//@@ fn file=fe2o3-amqp/src/link/sender_link.rs impl=`~impl<T>endpoint::SenderLinkforSenderLink<T>` name=send_payload_with_transfer
+//@@ selfmut
+//@@ ret Result<Settlement, LinkStateError>
+//@@ param writer : &mut ChanSender<LinkFrame>
+//@@ subst `oneshot::channel()` => `oneshot_channel()` rule=R9
+//@@ subst `let mut guard = self.unsettled.write();` => `let mut guard = &mut self.unsettled;` rule=R4
+//@@ subst `guard .get_or_insert(OrderedMap::new()) .insert(delivery_tag.clone(), unsettled)` => `opt_insert(&mut *guard, delivery_tag.clone(), unsettled)` rule=R15
+//@@ spec
+    ensures
+        r is Ok ==> transfer.delivery_tag is Some && ({
+            let tag = transfer.delivery_tag->Some_0;
+            let presettled = if transfer.settled is Some { transfer.settled->Some_0 } else { old(self).snd_settle_mode is Settled };
+            &&& presettled ==> r->Ok_0 == Settlement::Settled(tag) && omap(final(self).unsettled) == omap(old(self).unsettled)   // [C02.send.presettled] a pre-settled send completes at once (nothing to wait for) and leaves no unsettled state behind
+            &&& !presettled ==> r->Ok_0 is Unsettled && r->Ok_0->Unsettled_delivery_tag == tag
+                    && omap(final(self).unsettled).dom() =~= omap(old(self).unsettled).dom().insert(tag)
+                    && omap(final(self).unsettled)[tag].sender.id@ == r->Ok_0->Unsettled_outcome.id@                             // [C02.send.own-channel] an unsettled send waits on the completion channel whose other end is stored under ITS OWN delivery-tag -- so it can only be resolved by a disposition for that delivery
+                    && omap(final(self).unsettled)[tag].state is None
+                    && (forall|k: DeliveryTag| k != tag && omap(old(self).unsettled).contains_key(k) ==> #[trigger] omap(final(self).unsettled)[k] == omap(old(self).unsettled)[k])
+        }),
+        r is Err ==> omap(final(self).unsettled) == omap(old(self).unsettled),
 //@@ end
 }
 
